@@ -533,6 +533,19 @@ pub fn execute(t: &Trace, stats: &mut Stats, record: bool) -> Outcome {
     };
 
     let mut violation = violation;
+    if violation.is_none() && !control_after_incomplete_char(&t.input) {
+        // absolute, model-free: whatever the input and the faults, no ESC, DEL or non-whitespace C0
+        // byte may reach the inner writer (the differential oracles above cannot see a leak that
+        // the one-shot stripper shares)
+        client.st.probe("no_control_byte_invariant_evaluated");
+        let st = h.st();
+        if let Some((at, b)) = first_control_byte(&st.accepted) {
+            violation = viol(
+                "leak-escape",
+                format!("byte {b:#04x} reached the inner writer at output offset {at}: {:?} (input {:?})", lossy(&st.accepted), lossy(&t.input)),
+            );
+        }
+    }
     if violation.is_none() {
         // the reference for everything above is the real one-shot stripper; for inputs of the
         // restricted well-formed grammar the visible text is also known independently
